@@ -437,7 +437,7 @@ def stage_compilers(ctx):
             descr.append(("import_lines", opt, t, lines))
             texts.append((opt, t, real))
     ctx.cov["evaluations"] += len(pairs)
-    bad = lib.coq_compare(ctx, "c18a", IMPORTS_MODEL, pairs)
+    bad = compare(ctx, "c18a", IMPORTS_MODEL, pairs)
     ctx.cov["disagreements_checked"] += len(pairs)
     for i in bad[:10]:
         ctx.fail("corr", f"model and implementation disagree on {descr[i][0]}", cls="compiler-text", input={"compiler": descr[i][1], "ast": descr[i][2]},
@@ -474,7 +474,7 @@ def stage_compilers(ctx):
                     seen.add(mut)
                     oneway.append(mut)
     ctx.cov["evaluations"] += len(pairs)
-    bad = lib.coq_compare(ctx, "c18b", IMPORTS_MODEL, pairs)
+    bad = compare(ctx, "c18b", IMPORTS_MODEL, pairs)
     for i in bad[:10]:
         ctx.fail("corr", "the denotation disagrees with CPython's evaluation of the same annotation text", cls="denote-vs-cpython",
                  input={"text": descr[i][0], "origin": descr[i][1]}, observed_impl=descr[i][2],
@@ -488,7 +488,7 @@ def stage_compilers(ctx):
         pairs2.append((f"match denote {cs(mut)} with None => {exp} | Some s => cv_py_norm s end", exp))
         d2.append((mut, h))
     ctx.cov["evaluations"] += len(pairs2)
-    bad = lib.coq_compare(ctx, "c18b2", IMPORTS_MODEL, pairs2)
+    bad = compare(ctx, "c18b2", IMPORTS_MODEL, pairs2)
     ctx.count("denote:damaged", len(pairs2))
     for i in bad[:10]:
         ctx.fail("corr", "the denotation accepts damaged annotation text with a type CPython does not give it", cls="denote-vs-cpython-damaged",
@@ -772,7 +772,7 @@ def stage_translation(ctx, schemas, tag):
         imports = IMPORTS_MODEL
         ctx.notes.append("Proofs/TypingP.vo not available: the theorem-domain check of generated annotations was skipped")
     ctx.cov["evaluations"] += len(todo)
-    bad = lib.coq_compare(ctx, f"c18c{tag}", imports, [(m, e) for m, e, _ in todo])
+    bad = compare(ctx, f"c18c{tag}", imports, [(m, e) for m, e, _ in todo])
     ctx.cov["disagreements_checked"] += len(todo)
     reported = set()
     for i in bad:
@@ -938,7 +938,7 @@ def stage_options(ctx):
         descr.append((p, obs))
         ctx.count("option-string")
     ctx.cov["evaluations"] += len(pairs)
-    bad = lib.coq_compare(ctx, "c18d", IMPORTS_MODEL, pairs)
+    bad = compare(ctx, "c18d", IMPORTS_MODEL, pairs)
     for i in bad[:5]:
         ctx.fail("corr", "option parsing: model and generate_code disagree", cls="options", input={"parameter": descr[i][0]},
                  observed_impl=descr[i][1], expected_model=lib.coq_eval(ctx, IMPORTS_MODEL, pairs[i][0]),
@@ -979,7 +979,20 @@ class _Sub:
         return getattr(self._ctx, k)
 
 
-def ensure_tables(ctx):
+def compare(ctx, name, imports, pairs):
+    """lib.coq_compare, retried when a concurrent build of another tree swapped a .vo under us"""
+    for attempt in range(3):
+        try:
+            return lib.coq_compare(ctx, f"{name}_{attempt}" if attempt else name, imports, pairs)
+        except RuntimeError as e:
+            transient = "inconsistent assumptions" in str(e) or "Cannot find a physical path" in str(e) or "Compiled library" in str(e)
+            if not transient or attempt == 2:
+                raise
+            ctx.notes.append("compiled model changed under the comparison (concurrent build); rebuilding and retrying")
+            ensure_tables(ctx, force=True)
+
+
+def ensure_tables(ctx, force=False):
     """setup.sh regenerates coq/gen/*.v outside the build lock, so a concurrent check of another tree can replace
     C18Tables.v between our generation and our build.  Make sure what was compiled is the table of the tree under test."""
     for attempt in range(3):
@@ -994,8 +1007,9 @@ def ensure_tables(ctx):
             fresh = os.path.getmtime(vo) >= os.path.getmtime(T1.OUT)
         except OSError:
             have, fresh = None, False
-        if have == want and fresh:
+        if have == want and fresh and not force:
             return
+        force = False
         ctx.notes.append("coq/gen/C18Tables.v was regenerated from another tree by a concurrent run; rebuilding")
         # regenerate and build while holding the build lock (setup.sh generates before it takes the lock)
         cmd = ["flock", os.path.join(lib.COQ, ".build.lock"), "bash", "-c",
